@@ -28,6 +28,14 @@ def model_check_runs(quick):
     out.append(("MCEncLzBroken(expected violation)", b, "broken:WindowEquiv"))
     r = tlc.run("MCEncLzma2", cfg="MCEncLzma2.cfg" if quick else "MCEncLzma2T.cfg", workers=3, timeout=1500)
     out.append(("MCEncLzma2", r, "mc"))
+    # encoder window / chunk-size reserve, dictionary size as parameter
+    for d in ((4, 14) if quick else (1, 4, 9, 14)):
+        r = tlc.run("MCEncWindow", cfg="MCEncWindow%s_d%d.cfg" % ("Q" if quick else "", d), workers=3, timeout=900)
+        out.append(("MCEncWindow(dict=%d)" % d, r, "mc"))
+    b = tlc.run("MCEncWindow", cfg="MCEncWindowBrokenBefore.cfg", workers=1, timeout=300)
+    out.append(("MCEncWindowBrokenBefore(expected violation)", b, "broken:ChunkStaysInWindow"))
+    b = tlc.run("MCEncWindow", cfg="MCEncWindowBrokenReserve.cfg", workers=1, timeout=300)
+    out.append(("MCEncWindowBrokenReserve(expected violation)", b, "broken:UncompressedFits"))
     return out
 
 def model_check_apply(ctx, runs):
@@ -151,7 +159,7 @@ def _gen_seed(ctx, sd):
     open(cfg, "w").write(src.replace("Seed = 0", "Seed = %d" % sd))
     return tlc.run("GenEncConfig", cfg=cfg, workers=1, timeout=900)
 
-def build_jobs(ctx, plans, want, first_full=None):
+def build_jobs(ctx, plans, want, first_full=None, sweeps=True):
     """All input classes for the first `first_full` plans (default: all), a rotating half of them for the rest."""
     jobs = []
     asan_max = 9000 if ctx.quick else 70000
@@ -163,6 +171,10 @@ def build_jobs(ctx, plans, want, first_full=None):
             big = inp["n"] > asan_max or int(plan["preset"]) >= 7 and plan["entry"] in ("easy", "easy_buffer", "stream_mt")
             jobs.append(dict(idx=len(jobs), plan=plan, inp=inp, seed=ctx.rng.randrange(1 << 30),
                              variant="plain" if big else "asan", want=want, quick=ctx.quick))
+    # chunk-boundary sweep (no bias re-encodes: the point is the position of the boundary)
+    for plan, inp in (cases.srf_jobs(plans, ctx.tier, ctx.rng, 0) if sweeps else []):
+        jobs.append(dict(idx=len(jobs), plan=plan, inp=inp, seed=ctx.rng.randrange(1 << 30), variant="plain",
+                         want=set(want) - {"bias"}, quick=ctx.quick, mode="agg"))
     return jobs
 
 def key_of(label, e, idx):
